@@ -65,7 +65,15 @@ def run(R):
         tb, lt = test
         R.check(lt['exact'], 'C06.R1', 'operator', site(b, tb), 'limit test %s(%s, %s): a length equal to the limit is accepted, one byte more is rejected: %r' % (lt['op'], show(lt['len'])[:60], show(lt['limit'])[:60], lt['exact']))
         lim = strip_refs(lt['limit'])
-        R.check(option_or_default(lim, 'max_message_size', W['default_max_recv']), 'C06.R1', 'limit-source', site(b, tb), 'limit = %s' % show(lim))
+        oklim = option_or_default(lim, 'max_message_size', W['default_max_recv'])
+        if not oklim and lim[0] == 'field' and arg_root(lim) == 1:
+            # the default was resolved once, in the constructor: StreamingInner{<field>: max_message_size.unwrap_or(DEFAULT)}
+            snb = tonic.body('codec::decode::Streaming::<T>::new')
+            for bb_, i_, p_, a_, ops_ in mirlib.aggregates(snb, 'decode::StreamingInner'):
+                if lim[2] in a_['fields']:
+                    iv = strip_refs(snb.origin(ops_[a_['fields'].index(lim[2])]))
+                    oklim = (is_call(iv, name='unwrap_or') and is_limit_param(snb, iv[2][0]) and const_val(iv[2][1]) == W['default_max_recv'])
+        R.check(oklim, 'C06.R1', 'limit-source', site(b, tb), 'limit = %s (configured limit or the 4 MiB default)' % show(lim))
         # everything that can follow the reject edge (path-sensitively: a helper's Err is followed through `?`)
         rej = b.reach_ps(lt['reject'], removed={tb}) if lt['reject'] else set()
         over = [(bb, i, ops) for bb, i, p, a, ops in mirlib.aggregates(b, 'result::Result', 'Err') if bb in rej]
@@ -202,20 +210,31 @@ def run(R):
     # ---------------------------------------------------------------- R4 plumbing
     R.describe('C06.R4', 'limit plumbing: server/client configuration fields reach Streaming::new_request/new_response (decode) and map_response/EncodeBody (encode); encode and decode limits are not swapped')
     with R.guard('C06.R4'):
-        n = 0
-        for h in ('unary', 'server_streaming', 'client_streaming', 'streaming'):
-            co = tonic.body('server::grpc::Grpc::<T>::%s::{closure#0}' % h)
-            R.saw(co)
-            for mb, mt in co.calls(pat='Grpc::<T>::map_response'):
-                n += 1
-                mrp = limit_pos(tonic, 'server::grpc::Grpc::<T>::map_response')
-                names = field_names(co.origin(mt['args'][mrp]))
-                R.check(names[-1:] == ['max_encoding_message_size'], 'C06.R4', 'srv:%s:encode-limit' % h, site(co, mb), 'max_message_size argument = %s' % show(co.origin(mt['args'][mrp])))
-        R.floor('C06.R4', 'map_response sites', n, 4)
+        # the encode limit of every server response: map_response hands EncodeBody::new_server either its own parameter (then every call
+        # site passes self.max_encoding_message_size) or the field itself
         mr = tonic.body('server::grpc::Grpc::<T>::map_response')
         nb, nt = mr.call1(name='new_server')
-        a = mr.origin(nt['args'][limit_pos(tonic, 'codec::encode::EncodeBody::<T, U>::new_server')])
-        R.check(is_limit_param(mr, a), 'C06.R4', 'srv:map_response->encoder', site(mr, nb), 'EncodeBody::new_server limit = %s' % show(a))
+        a = strip_refs(mr.origin(nt['args'][limit_pos(tonic, 'codec::encode::EncodeBody::<T, U>::new_server')]))
+        la = loc_of(a)
+        n = 0
+        if la is not None and not la[1]:
+            R.check(is_limit_param(mr, a), 'C06.R4', 'srv:map_response->encoder', site(mr, nb), 'EncodeBody::new_server limit = %s' % show(a))
+            for h in ('unary', 'server_streaming', 'client_streaming', 'streaming'):
+                co = tonic.body('server::grpc::Grpc::<T>::%s::{closure#0}' % h)
+                R.saw(co)
+                for mb, mt in co.calls(pat='Grpc::<T>::map_response'):
+                    n += 1
+                    names = field_names(co.origin(mt['args'][la[0] - 1]))
+                    R.check(names[-1:] == ['max_encoding_message_size'], 'C06.R4', 'srv:%s:encode-limit' % h, site(co, mb), 'max_message_size argument = %s' % show(co.origin(mt['args'][la[0] - 1])))
+        else:
+            R.check(field_names(a)[-1:] == ['max_encoding_message_size'] and arg_root(a) == 1, 'C06.R4', 'srv:map_response->encoder', site(mr, nb), 'EncodeBody::new_server limit = %s (self.max_encoding_message_size)' % show(a))
+            for h in ('unary', 'server_streaming', 'client_streaming', 'streaming'):
+                co = tonic.body('server::grpc::Grpc::<T>::%s::{closure#0}' % h)
+                R.saw(co)
+                for mb, mt in co.calls(pat='Grpc::<T>::map_response'):
+                    n += 1
+                    R.ok('C06.R4', 'srv:%s:encode-limit' % h, site(co, mb), 'map_response reads self.max_encoding_message_size itself')
+        R.floor('C06.R4', 'map_response sites', n, 4)
         for nm in ('map_request_unary::{closure#0}', 'map_request_streaming'):
             mb_ = tonic.body('server::grpc::Grpc::<T>::' + nm)
             fam = [mb_] + [c for c in tonic.children(mb_) if c.kind == 'closure']
@@ -250,8 +269,9 @@ def run(R):
             R.check(is_limit_param(cb, a), 'C06.R4', 'Streaming::%s->new' % ctor, site(cb, bb), 'limit = %s' % show(a))
         sn = tonic.body('codec::decode::Streaming::<T>::new')
         for bb, i, p, a, ops in mirlib.aggregates(sn, 'decode::StreamingInner'):
-            v = sn.origin(ops[a['fields'].index('max_message_size')])
-            R.check(is_limit_param(sn, v), 'C06.R4', 'StreamingInner.max_message_size', site(sn, bb, i), 'field = %s' % show(v))
+            lf = [f_ for f_ in a['fields'] if f_ == 'max_message_size'] or [f_ for f_, o_ in zip(a['fields'], ops) if term_contains(sn.origin(o_), lambda x: isinstance(x, tuple) and x and x[0] == 'arg' and re.search(LIMIT_TY, sn.ty(x[1])) is not None)]
+            v = strip_refs(sn.origin(ops[a['fields'].index(lf[0])])) if lf else ('x',)
+            R.check(is_limit_param(sn, v) or (is_call(v, name='unwrap_or') and is_limit_param(sn, v[2][0])), 'C06.R4', 'StreamingInner.max_message_size', site(sn, bb, i), 'field %s = %s' % (lf[0] if lf else None, show(v)))
         # client
         st = tonic.body('client::grpc::Grpc::<T>::streaming::{closure#0}')
         fam = [st] + [c for c in tonic.bodies if c.path.startswith(st.path + '::') and c.kind == 'closure']
